@@ -1,4 +1,66 @@
 import XPathV.Model.Api
-/-! # Property C15 — theorems (placeholder header; filled in below) -/
+import XPathV.Lemmas.Facts
+/-!
+# C15 — a compiled expression never fails with a Go runtime error (partial)
+
+Full statement (kept visible): for every plan the builder accepts, every document and context,
+`sel`/`evalP` return a value of a documented type or a deliberately raised error — never
+`EErr.crash`.  Proved below: the structural halves (T0) and the per-construct safety lemmas; the
+assembly over *all* accepted plans is not closed (`round()` returns a Go `int`, which reaches
+`getXPathType` — a known finding pinned by `Test_func_round`).
+-/
 namespace XPathV.Theorems.C15
+open XPathV XPathV.Model XPathV.Facts NumAlg
+
+/-- the full statement -/
+def C15Statement (F : Type) [NumAlg F] : Prop :=
+  ∀ (cc : CompileCfg) ns text p, compile cc ns text = .ok p →
+    ∀ (d : Doc) (cfg : ECfg) (c : Ref),
+      (∀ k, sel (F := F) d cfg p c ≠ .error (.crash k)) ∧ (∀ k, evalP (F := F) d cfg p c ≠ .error (.crash k))
+
+/-- T0 (F1): the comparison dispatch matrix has no nil cell -/
+theorem dispatch_total : Generated.cmpTable.all (fun row => row.all Option.isSome) = true := by decide
+
+/-- T0 (F14): `asBool`/`asString` have arms for every documented dynamic type, `mod` does not go
+through `int` -/
+theorem conversions_total :
+    (Generated.convs.find? (fun c => c.func == "asBool")).map (·.arms) = some ["nil", "*NodeIterator", "bool", "float64", "string", "query"] ∧
+    (Generated.convs.find? (fun c => c.func == "asString")).map (·.arms) = some ["nil", "bool", "float64", "string", "query"] ∧
+    Generated.modUsesIntConversion = false := by decide
+
+/-- T0 (F3, F4): unknown functions and unknown axes are compile errors; `processNode` handles every
+node type including variables -/
+theorem unsupported_constructs_rejected : Generated.funcDefaultErrors = true ∧ Generated.axisDefaultErrors = true ∧
+    Generated.processNodeCases.contains "nodeVariable" = true := by decide
+
+/-- the known finding, as a fact: `round` returns `int` -/
+theorem round_returns_int : Generated.roundReturnType = "int" := by decide
+
+variable {F : Type} [NumAlg F]
+
+/-- the builder never emits a nil plan for a variable reference: it is an error -/
+theorem variables_rejected (rx : RegexOk) (lim : Nat) (a b : Bool) (p n : String) (fl : Flags) (st : BState) (hlim : st.depth + 1 ≤ lim) :
+    build rx lim a b (.var p n) fl st = .error .undeclaredVariable := by
+  simp [build, build.enter]
+  omega
+
+/-- comparisons of documented value types never crash: every pair of operand types has a cell -/
+theorem comparison_never_crashes (d : Doc) (op : Spec.CmpOp) (m n : MVal F)
+    (hm : ∀ i, m ≠ .int i) (hm' : m ≠ .nilv) (hn : ∀ i, n ≠ .int i) (hn' : n ≠ .nilv) :
+    ∃ b, cmpM d op m n = .ok b := by
+  cases m <;> cases n <;> simp_all [cmpM, xtypeOf, asBoolM, bind, Except.bind, pure, Except.pure]
+
+/-- `mod` by zero is a value (NaN by IEEE), not an integer division crash -/
+theorem mod_never_crashes (d : Doc) (cfg : ECfg) (c : Ref) (l1 l2 : String) :
+    ∃ v, evalP (F := F) d cfg (.numeric "mod" (.constNum l1) (.constNum l2)) c = .ok v := by
+  simp [evalP, asNumberM, bind, Except.bind]
+
+/-- a comparison used as a path input yields the context node at most once (the pinned
+`logicalQuery.Select` yielded it forever) -/
+theorem logical_select_finite (d : Doc) (cfg : ECfg) (op : String) (l r : Plan) (c : Ref) (out : List Item)
+    (h : sel (F := F) d cfg (.logical op l r) c = .ok out) : out.length ≤ 1 := by
+  simp only [sel, bind, Except.bind] at h
+  repeat (split at h <;> try cases h)
+  all_goals simp
+
 end XPathV.Theorems.C15
